@@ -421,6 +421,18 @@ inline long double dist_pt_seg(long double px, long double py, long double ax, l
     long double ex = ax + t * dx - px, ey = ay + t * dy - py;
     return sqrtl(ex * ex + ey * ey);
 }
+inline long double shoelace(const std::vector<std::pair<long double, long double>>& p) {
+    long double s = 0;
+    size_t n = p.size();
+    for (size_t i = 0; i < n; i++) s += p[i].first * p[(i + 1) % n].second - p[(i + 1) % n].first * p[i].second;
+    return 0.5L * s;
+}
+inline long double perimeter(const std::vector<std::pair<long double, long double>>& p) {
+    long double s = 0;
+    size_t n = p.size();
+    for (size_t i = 0; i < n; i++) s += hypotl(p[(i + 1) % n].first - p[i].first, p[(i + 1) % n].second - p[i].second);
+    return s;
+}
 inline long double max_vertex_to_boundary(const std::vector<std::pair<long double, long double>>& v, const std::vector<std::pair<long double, long double>>& poly) {
     long double worst = 0;
     size_t n = poly.size();
@@ -487,7 +499,10 @@ inline void compare_pair(std::vector<Diff>& out, const std::string& cell, const 
                 long double bound = 2 * ctx.circle_tolerance_grid + ctx.reader_tolerance_grid + 1.5L;
                 long double d1 = max_vertex_to_boundary(b.raw, a.raw), d2 = max_vertex_to_boundary(a.raw, b.raw);
                 long double dev = std::max(d1, d2);
-                if (dev <= bound) {
+                // region check: the areas may differ by at most a band of width 'bound' along the longer boundary
+                long double area_a = fabsl(shoelace(a.raw)), area_b = fabsl(shoelace(b.raw)), per = std::max(perimeter(a.raw), perimeter(b.raw));
+                bool area_ok = fabsl(area_a - area_b) <= bound * per;
+                if (dev <= bound && area_ok) {
                     ctx.circles_within_tolerance++;
                     ctx.worst_circle_deviation = std::max(ctx.worst_circle_deviation, dev);
                     continue;
@@ -504,6 +519,7 @@ inline void compare_pair(std::vector<Diff>& out, const std::string& cell, const 
                              {"deviation_grid_steps", jnum((double)dev)}, {"bound_grid_steps", jnum((double)bound)}};
                 d.detail = fmt("cell %s: polygon with %zu vertices re-loaded with %zu vertices; largest vertex-to-boundary distance %.3Lf grid steps > bound %.3Lf (2*circle_tolerance + reader tolerance + 1.5); vertex distances from the centroid of the source polygon spread over %.3Lf grid steps around %.3Lf",
                                cell.c_str(), a.raw.size(), b.raw.size(), dev, bound, rmax - rmin, 0.5 * (rmax + rmin));
+                d.detail += fmt("; area %.1Lf -> %.1Lf grid steps^2 (%s)", area_a, area_b, area_ok ? "within the band" : "outside the band");
                 out.push_back(d);
                 continue;
             }
